@@ -363,4 +363,78 @@ def hmatch (jt : JT) (pkeys bkeys : List Nat) (l r : Row) : Bool :=
   decide (extractKey bkeys r = extractKey pkeys l) &&
     !(decide (extractKey bkeys r = .one .null) && !jt.keepsNull)
 
+
+/-! ### leapfrog join (`operators/leapfrog_join.rs` over `index/trie.rs`)
+
+Inputs are materialised; every row whose key cells are all non-NULL `Int64` enters the input's
+trie under the path of its key cells (`as u64`). `execute_leapfrog` intersects the FIRST trie
+level only; `collect_row_ids_at_key` then takes, per input, the rows stored exactly at `[key]`
+and the rows stored exactly at `[key, child]` for every child in ascending order — whatever the
+child is, and nothing below the second level. The result rows are the cartesian products per key
+(rightmost input fastest), 2048 per chunk. (The trie stores row ids; the model stores the rows
+they point to. The leapfrog search itself is modelled by its result: the ascending intersection
+of the first-level key sets.) -/
+
+/-- `i as u64` -/
+def u64 (i : Int) : Nat := (i % 2 ^ 64).toNat
+
+/-- `extract_join_keys` on `Int64` columns -/
+def lfPath (keys : List Nat) (r : Row) : Option (List Nat) :=
+  keys.mapM fun c => match r.getD c .null with
+    | .int i => some (u64 i)
+    | _ => none
+
+def lfEntries (keys : List Nat) (chunks : List Chunk) : List (List Nat × Row) :=
+  chunks.flatten.filterMap fun r => (lfPath keys r).map fun p => (p, r)
+
+def insertNat (a : Nat) : List Nat → List Nat
+  | [] => [a]
+  | b :: bs => if a < b then a :: b :: bs else if a = b then b :: bs else b :: insertNat a bs
+
+/-- ascending, without duplicates -/
+def sortDedup (xs : List Nat) : List Nat := xs.foldr insertNat []
+
+/-- the sorted keys of the trie's first level -/
+def lfKeys1 (es : List (List Nat × Row)) : List Nat := sortDedup (es.filterMap fun e => e.1.head?)
+
+/-- `collect_row_ids_at_key` -/
+def lfRowsAt (es : List (List Nat × Row)) (key : Nat) : List Row :=
+  (es.filter fun e => e.1 == [key]).map (·.2) ++
+  (sortDedup (es.filterMap fun e => match e.1 with
+      | k :: c :: _ => if k == key then some c else none
+      | _ => none)).flatMap fun c => (es.filter fun e => e.1 == [key, c]).map (·.2)
+
+/-- `advance_expansion`: the rightmost input moves fastest -/
+def lfProduct : List (List Row) → List Row
+  | [] => [[]]
+  | rs :: rest => rs.flatMap fun r => (lfProduct rest).map (r ++ ·)
+
+def lfRows (keys : List Nat) (inputs : List (List Chunk)) : List Row :=
+  match inputs.map (lfEntries keys) with
+  | [] => []
+  | e0 :: es =>
+    ((lfKeys1 e0).filter fun k => es.all fun e => (lfKeys1 e).contains k).flatMap fun k =>
+      if ((e0 :: es).map (lfRowsAt · k)).all (fun rs => !rs.isEmpty) then lfProduct ((e0 :: es).map (lfRowsAt · k))
+      else []
+
+def chunksOf (cap : Nat) : Nat → List Row → List Chunk
+  | 0, _ => []
+  | f + 1, rows => if rows.isEmpty then [] else rows.take cap :: chunksOf cap f (rows.drop cap)
+
+/-- `LeapfrogJoinOperator` as a function from its inputs to its output chunks -/
+def lfJoin (cap : Nat) (keys : List Nat) (inputs : List (List Chunk)) : List Chunk :=
+  chunksOf cap (lfRows keys inputs).length (lfRows keys inputs)
+
+def lfTuples : List (List Row) → List (List Row)
+  | [] => [[]]
+  | rs :: rest => rs.flatMap fun r => (lfTuples rest).map (r :: ·)
+
+/-- the definition (what the equivalent plan of inner hash joins returns): one row from each
+input, all with the same, NULL-free key -/
+def Spec.leapfrog (keys : List Nat) (inputs : List (List Chunk)) : List Row :=
+  ((lfTuples (inputs.map List.flatten)).filter fun t =>
+    match t.map (lfPath keys) with
+    | some p :: rest => rest.all (· == some p)
+    | _ => false).map List.flatten
+
 end Grafeo.Join
